@@ -3,6 +3,7 @@ package p_distlock
 import (
 	"strings"
 	"testing"
+	"time"
 
 	"pgregory.net/rapid"
 	"verifharness/internal/vstat"
@@ -102,6 +103,8 @@ func record(prop string, c Case, info Info, trace []string) {
 }
 
 func runOne(t *testing.T, rt vstat.TB, prop, test string, c Case) {
+	stop := vstat.For(prop).Watch(test, "distlock", c, 60*time.Second)
+	defer stop()
 	info, v, trace := Run(t, c, func(v *vstat.Violation, trace []string) {
 		vstat.For(prop).Record(test, c, &vstat.Violation{Sig: v.Sig, Msg: v.Msg + "\nschedule:\n  " + strings.Join(trace, "\n  ")})
 	})
